@@ -425,6 +425,9 @@ pub fn c02_cfg(s: &mut Src) -> GenCfg {
 pub struct C02;
 
 impl Check for C02 {
+    fn fuzz_runs(&self) -> u64 {
+        2500
+    }
     fn id(&self) -> &'static str {
         "C02"
     }
